@@ -50,6 +50,8 @@ MUTS = {
  "rewrite-loop-limit": ("src/mod_rewrite.c", "		if (((++*hctx) & 0x1FF) > 100) {", "		if (((++*hctx) & 0x1FF) > 300) {", ["C20"]),
  "reluri-cr-unescaped": ("src/buffer.c", "\t1, 1, 1, 1, 1, 1, 1, 1, 1, 1, 1, 1, 1, 1, 1, 1,  /*  00 -  0F control chars */\n\t1, 1, 1, 1, 1, 1, 1, 1, 1, 1, 1, 1, 1, 1, 1, 1,  /*  10 -  1F */\n\t1, 0, 1, 1, 1, 1, 1, 1, 0, 0, 0, 1, 1, 0, 0, 0,  /*  20 -  2F space \" # $ % & ' + , */",
                          "\t1, 1, 1, 1, 1, 1, 1, 1, 1, 1, 1, 1, 1, 0, 1, 1,  /*  00 -  0F control chars */\n\t1, 1, 1, 1, 1, 1, 1, 1, 1, 1, 1, 1, 1, 1, 1, 1,  /*  10 -  1F */\n\t1, 0, 1, 1, 1, 1, 1, 1, 0, 0, 0, 1, 1, 0, 0, 0,  /*  20 -  2F space \" # $ % & ' + , */", ["C04"]),
+ "symlink-walk-stops-early": ("src/stat_cache.c", "    } while ((s_cur = strrchr(buf, '/')) > buf); /*(&buf[0]==buf; NULL < buf)*/", "    } while ((s_cur = strrchr(buf, '/')) > buf + 8); /*(&buf[0]==buf; NULL < buf)*/", ["C02"]),
+ "digest-uri-unchecked": ("src/mod_auth.c", "    if (!buffer_eq_slen(&r->target_orig, dp->ptr[e_uri], dp->len[e_uri])) {", "    if (0 && !buffer_eq_slen(&r->target_orig, dp->ptr[e_uri], dp->len[e_uri])) {", ["C16"]),
  "else-link": ("src/configparser.y", "    C->prev = B;\n    B->next = C;\n    A = C;", "    C->prev = B;\n    A = C;", ["C14"]),
 }
 
